@@ -1010,7 +1010,7 @@ class Parsent(object):
                     bodyParser.close()
                     break
                 (yield None)
-        except HTTPException as ex:
+        except (HTTPException, ValueError) as ex:  # malformed message bytes
             self.errored = True
             self.error = str(ex)
 
